@@ -66,6 +66,10 @@ _HELPERS = {
     "fstart": ["start fb", "match A()"],
     "fabort": ["match A()", "abort"],
     "factv": ["activate fb", "match A()"],
+    # two flows that start the IDENTICAL action on the same event (the loser of the conflict is re-pointed to the winner's action);
+    # the first one ends on B, the second one later
+    "fsa": ["match A()", 'start UtteranceBotAction(script="same") as $x', "match B()"],
+    "fsb": ["match A()", 'start UtteranceBotAction(script="same") as $y', "match C()", "match B()"],
 }
 
 # statement blocks for the body of `main` (lines are relative to the body indentation)
@@ -116,6 +120,7 @@ _BLOCKS = {
     "whenand": ["when fa and fb", "  match C()", "or when C()", "  match A()"],
     "abort": ["abort"],
     "return": ["return"],
+    "shared": ["start fsa and fsb"],
 }
 
 _LIB_PROGRAMS = [
@@ -194,7 +199,7 @@ _CURATED = [
     (["while", "send"], True), (["whilebreak", "m1"], False), (["if", "awaitf"], False), (["startf", "stop", "m1"], True),
     (["actb", "finish", "mor"], False), (["orflowev", "m1"], True), (["startwhen", "mor"], False), (["startstart", "mor"], False),
     (["actf", "actab", "m1"], False), (["actf", "m1", "send"], False), (["whendup", "m1"], False), (["mdup", "send"], True),
-    (["whenand", "m1"], False), (["actf", "actand", "m1", "send"], True), (["mor3", "abort"], False), (["mor", "return"], False), (["awaitc", "mor"], False),
+    (["whenand", "m1"], False), (["shared", "mor3"], True), (["actf", "actand", "m1", "send"], True), (["mor3", "abort"], False), (["mor", "return"], False), (["awaitc", "mor"], False),
 ]
 
 
